@@ -450,6 +450,13 @@ def run(ctx):
         custom_type_fallback(ctx, ctx.rng("custom"))
     if ctx.shard == 1:
         special_definitions(ctx, ctx.rng("special"))
+    if ctx.shard % 4 == 2:
+        # lengths over fields folded in through several anonymous levels (constant outer / computed inner dimensions)
+        r2 = ctx.rng("deep-folded")
+        for _ in range(6 if not ctx.thorough else 60):
+            case = gen.deep_folded_case(r2)
+            ctx.cell("deep-folded-length-source")
+            check_case(ctx, case, r2, shapes)
     for i in range(n):
         if ctx.out_of_time():
             break
